@@ -328,10 +328,13 @@ IRFb(t) == /\ pc[t] = "ir_fb" /\ LET l == loc[t] IN
 \* retry_from_root of the layer the cursor is in
 IRRoot(t) == /\ pc[t] = "ir_root" /\ Stable(nd[Top(loc[t]).root].ver)
              /\ LET l == loc[t] r == Top(l).root rv == nd[r].ver IN
-                IF rv.del THEN (IF Len(l.st) = 1 THEN Goto(t, "i_ret") /\ UNCHANGED loc ELSE loc' = [loc EXCEPT ![t] = Pop(l)] /\ Goto(t, "in_top"))
+                IF rv.del THEN (IF Len(l.st) = 1 THEN Goto(t, "i_ret") /\ UNCHANGED loc ELSE Goto(t, "ir_isb") /\ UNCHANGED loc)
                 ELSE IF ~rv.root THEN (IF Len(l.st) = 1 THEN Goto(t, "ir_root") /\ UNCHANGED loc ELSE Goto(t, "ir_up") /\ UNCHANGED loc)
                 ELSE Goto(t, "ir_find") /\ UNCHANGED loc
              /\ UNCHANGED U6
+\* deleted saved root below layer 0: one more load of its version word (border or interior?).  A border (always, in this model): the layer is gone,
+\* the cursor leaves it; an interior root that collapsed would be looked up again through the upper link (fix F18; outside this model)
+IRIsB(t) == /\ pc[t] = "ir_isb" /\ loc' = [loc EXCEPT ![t] = Pop(loc[t])] /\ Goto(t, "in_top") /\ UNCHANGED U6
 \* the layer's root is fetched again through the link held by the border of the upper layer (no version protocol)
 IRUp(t) == /\ pc[t] = "ir_up" /\ LET l == loc[t] up == l.st[Len(l.st) - 1] p == nd[up.bn].perm s == Lookup(up.bn, p, up.key) IN
               IF s # NoSlot /\ nd[up.bn].kind[s] = "L" /\ nd[up.bn].lv[s] # 0
@@ -349,7 +352,7 @@ IRArr(t) == /\ pc[t] = "ir_arr" /\ LET l == loc[t] p == nd[l.b].perm IN
             /\ Goto(t, "in_ent") /\ UNCHANGED U6
 IRet(t) == /\ pc[t] = "i_ret" /\ Ret(t, <<"OK", loc[t].out>>) /\ UNCHANGED <<nd, loc, abs, seen>>
 IStep(t) == IOLv1(t) \/ IOP(t) \/ IOLv2(t) \/ IOStack(t) \/ INTop(t) \/ INEnt(t) \/ CK1(t) \/ CK2(t) \/ CK3(t) \/ CK4(t) \/ INChild(t) \/ INCfb(t) \/ INPush(t)
-            \/ IRFb(t) \/ IRRoot(t) \/ IRUp(t) \/ IRFind(t) \/ IRArr(t) \/ IRet(t)
+            \/ IRFb(t) \/ IRRoot(t) \/ IRIsB(t) \/ IRUp(t) \/ IRFind(t) \/ IRArr(t) \/ IRet(t)
 Step(t) == IStep(t) \/ ScanStep(t) \/ Start(t) \/ G0(t) \/ FB(t) \/ LV1(t) \/ PermLd(t) \/ LV2(t) \/ DLv(t) \/ DFc(t) \/ FB1(t) \/ GVal(t) \/ GFc(t) \/ RFc0(t)
            \/ Lock(t) \/ Chk(t) \/ PUndel(t) \/ PSlot(t) \/ PPub(t) \/ PSet(t) \/ PUnlock(t) \/ RClear(t) \/ RPub(t) \/ RUnlock(t)
            \/ RDel(t) \/ RLp(t) \/ RLpl(t) \/ RLpc(t) \/ RRoot0(t) \/ RSelfUnl(t) \/ DPub(t) \/ DUnl(t)
